@@ -3,6 +3,7 @@ package checks
 
 import (
 	_ "verif/harness/checks/c01"
+	_ "verif/harness/checks/c02"
 	_ "verif/harness/checks/c03"
 	_ "verif/harness/checks/c10"
 )
